@@ -192,7 +192,7 @@ func fromCtyNumberUInt(bf *big.Float, target reflect.Value, path cty.Path) error
 	}
 
 	iv, accuracy := bf.Uint64()
-	if accuracy != big.Exact || iv > max {
+	if accuracy != big.Exact || !bf.IsInt() || iv > max {
 		return path.NewErrorf("value must be a whole number, between 0 and %d inclusive", max)
 	}
 
